@@ -158,10 +158,12 @@ class Ctx:
             self.violations.append(('%s: %s' % (name, r.get('detail', '')[:300]), path))
 
     def write_replay(self, cx, r=None):
-        os.makedirs(os.path.join(VERIF, 'replays'), exist_ok=True)
+        # replays of runs against a scratch copy (seeded changes, VF_REPO) do not belong to /verif
+        rdir = os.path.join(VERIF, 'replays') if os.environ.get('VF_REPO', '/repo') == '/repo' else os.environ.get('VF_REPLAY_DIR', '/var/tmp/vf-replays')
+        os.makedirs(rdir, exist_ok=True)
         body = {'property': self.prop, 'cex': cx, 'replay_result': r and {k: v for k, v in r.items() if k != 'job'}}
         h = hashlib.sha1(json.dumps(cx, sort_keys=True, default=str).encode()).hexdigest()[:10]
-        path = os.path.join(VERIF, 'replays', '%s-%s.json' % (self.prop, h))
+        path = os.path.join(rdir, '%s-%s.json' % (self.prop, h))
         json.dump(body, open(path, 'w'), indent=1, default=str)
         return path
 
